@@ -50,7 +50,15 @@ func NewExtensionObject(value interface{}) *ExtensionObject {
 }
 
 func (e *ExtensionObject) Decode(b []byte) (int, error) {
+	return e.decodeDepth(b, 0)
+}
+
+func (e *ExtensionObject) decodeDepth(b []byte, depth int) (int, error) {
+	if depth > maxDecodeDepth {
+		return 0, StatusBadEncodingLimitsExceeded
+	}
 	buf := NewBuffer(b)
+	buf.depth = depth
 	e.TypeID = new(ExpandedNodeID)
 	buf.ReadStruct(e.TypeID)
 
@@ -75,6 +83,7 @@ func (e *ExtensionObject) Decode(b []byte) (int, error) {
 	}
 
 	body := NewBuffer(buf.ReadN(int(length)))
+	body.depth = depth
 	if buf.Error() != nil {
 		return buf.Pos(), buf.Error()
 	}
